@@ -131,3 +131,16 @@ contract(
     ensures=[f"result == spec.logix.udt_bytes({LAYOUT}, second)", f"bytes(e1) == spec.logix.udt_bytes({LAYOUT}, first)"],
     raises_only=["pycomm3.exceptions.DataError"],       # a float outside the REAL range cannot be packed
     props=["C02", "C07"], max_paths=20000)
+# BOOL members hosted by a VISIBLE integer member (module-defined types): the BOOL member decides its bit, set or cleared
+UDT_V = (f"{CT}StructTag(({DTP}INT('ctr'), 0), ({DTP}DINT('acc'), 4), bit_members={{'en': (0, 0), 'dn': (1, 7)}}, "
+         "private_members=set(), struct_size=8)")
+LAYOUT_V = "8, [('ctr', 0, 'INT'), ('acc', 4, 'DINT')], {'en': (0, 0), 'dn': (1, 7)}"
+contract(
+    id="structtag.encode.visible_host", func=CT + "StructTag.<locals>.StructTag._encode", call="bytes(T.encode(values))",
+    params={"values": P.dict(ctr=P.int(-32768, 32767), acc=P.int(-2**31, 2**31 - 1), en=P.bool(), dn=P.bool())},
+    setup=[f"T = {UDT_V}"], ref=f"spec.logix.udt_bytes({LAYOUT_V}, values)", props=["C02", "C07"], max_paths=20000)
+contract(
+    id="structtag.roundtrip.visible_host", func=CT + "StructTag.<locals>.StructTag._decode", call="T.decode(bytes(T.encode(values)))",
+    params={"values": P.dict(ctr=P.int(-32768, 32767), acc=P.int(-2**31, 2**31 - 1), en=P.bool(), dn=P.bool())},
+    setup=[f"T = {UDT_V}"], ensures=["result['en'] == values['en']", "result['dn'] == values['dn']", "result['acc'] == values['acc']"],
+    props=["C06", "C02"], max_paths=20000)
